@@ -10,6 +10,8 @@ from hypothesis import strategies as st
 
 OPS = ("$and", "$or", "$and_any_order", "$not")
 MNAMES = ["@ma_", "@mb_", "@mc_", "@md_", "@me_", "@mf_"]
+# the same with characters a name may contain besides letters, digits and '_' (a user's @gp-reg, @x.lo): still pairwise not contained
+MNAMES_PUNCT = ["@ma.x_", "@mb_", "@m-c_", "@md_", "@m-e.x_", "@mf_"]
 FORMALS = ["a", "b", "r", "x", "argx", "e", "argy", "ax", "argz"]  # short ones occur inside literals of the body (rax, rbx): formals are matched by equality only
 
 
@@ -90,9 +92,10 @@ def factor(draw, pattern, max_macros=4):
     uses = 0
     nmac = draw(st.integers(1, max_macros))
     roots = [pat]  # containers to search for slots: the rule and macro bodies
+    names = MNAMES_PUNCT if draw(st.integers(0, 2)) == 0 else MNAMES
     for q in range(nmac):
-        name = MNAMES[len(macros)]
-        kind = draw(st.sampled_from(["item", "operand", "substring", "times-body", "param", "param", "key-substring", "key-whole", "chain"]))
+        name = names[len(macros)]
+        kind = draw(st.sampled_from(["item", "operand", "substring", "times-body", "param", "param", "key-substring", "key-whole", "chain", "chain", "second-in-name", "second-in-name"]))
         root = draw(st.sampled_from(roots))
         slots = item_slots(root, [])
         if kind == "item":
@@ -130,6 +133,26 @@ def factor(draw, pattern, max_macros=4):
             if not mid:
                 continue
             macros.append({"name": name, "pattern": mid})
+            c[i] = s[:a] + name + s[b:]
+        elif kind == "second-in-name":
+            # a name that already holds one string macro gets a second, independent one - before or after the first in the name, while it
+            # is LISTED after it (so in half of the cases the macro standing later in the name is listed earlier)
+            cand = [(c, i) for c, i, t in slots if isinstance(c[i], str) and c[i].count("@") == 1 and not c[i].startswith(("&", "$"))
+                    and any(m_["name"] in c[i] and isinstance(m_["pattern"], str) and "args" not in m_ for m_ in macros)]
+            if not cand:
+                continue
+            c, i = draw(st.sampled_from(cand))
+            s = c[i]
+            first = next(m_["name"] for m_ in macros if m_["name"] in s)
+            at = s.index(first)
+            parts = [(0, at), (at + len(first), len(s))]
+            parts = [(lo_, hi_) for lo_, hi_ in parts if hi_ - lo_ >= 1]
+            if not parts:
+                continue
+            lo_, hi_ = draw(st.sampled_from(parts))
+            a = draw(st.integers(lo_, hi_ - 1))
+            b = draw(st.integers(a + 1, hi_))
+            macros.append({"name": name, "pattern": s[a:b]})
             c[i] = s[:a] + name + s[b:]
         elif kind == "times-body":
             cand = [(c, i) for c, i, t in slots if t == "item" and isinstance(c[i], dict) and len(c[i]) == 1 and isinstance(list(c[i].values())[0], dict)
@@ -176,6 +199,19 @@ def factor(draw, pattern, max_macros=4):
                 b = len(s_)
             macros.append({"name": name, "pattern": s_[a:b]})
             m_["pattern"] = s_[:a] + name + s_[b:]
+            if len(macros) < len(names) and len(s_[a:b]) >= 2 and draw(st.booleans()):
+                # ... and that one refers to a third (P -> X -> Y, listed in this order)
+                y_name = names[len(macros)]
+                x_body = s_[a:b]
+                a2 = draw(st.integers(0, len(x_body) - 1))
+                b2 = draw(st.integers(a2 + 1, len(x_body)))
+                if (a2, b2) == (0, len(x_body)):
+                    a2 = 1
+                if b2 < len(x_body) and (x_body[b2].isalnum() or x_body[b2] == "_"):
+                    b2 = len(x_body)
+                macros[-1]["pattern"] = x_body[:a2] + y_name + x_body[b2:]
+                macros.append({"name": y_name, "pattern": x_body[a2:b2]})
+                kinds.append("chain-of-three")
         else:  # parameterised
             cand = [(c, i) for c, i, t in slots if t == "item" and isinstance(c[i], dict) and not contains_macro_use(c[i]) and "times" not in c[i]]
             if not cand:
